@@ -44,6 +44,27 @@ func (e *Enc) callCommon(fr *Frame, st *State, cc *ssa.CallCommon, fnv *Val, arg
 	if b, ok := cc.Value.(*ssa.Builtin); ok && !cc.IsInvoke() {
 		return e.encBuiltin(fr, st, b, cc, args, rt, pos, hint)
 	}
+	// call-site assertions of the function under contract ("at call F@n assert ...")
+	if fr.top && fr.contract != nil && len(fr.contract.CallAsserts) > 0 && e.dry == 0 {
+		if fr.ranks == nil {
+			fr.ranks = computeRanks(fr.fn)
+		}
+		if r, ok := fr.ranks["call:"+fr.curCallClass][pos]; ok {
+			key := fmt.Sprintf("call:%s@%d", fr.curCallClass, r)
+			for i, cl := range fr.contract.CallAsserts[key] {
+				env := e.envFor(fr, st)
+				g, err := env.evalBool(cl.E)
+				if err != nil {
+					e.unsupportedf("%s assert %s: %v", key, cl.Src, err)
+					continue
+				}
+				fr.contract.callAssertSeen(key)
+				e.addObl(&Obligation{Name: key + ":assert:" + clauseName(cl, i), Kind: "assert", Label: cl.Label, Clause: "at " + key + ": " + cl.Src, Reach: st.reach, Goal: g, Pos: e.posStr(pos)})
+				// an assertion that has its own obligation is a lemma for everything that follows on this path
+				e.assume(st, g)
+			}
+		}
+	}
 	if cc.IsInvoke() {
 		recv := e.val(fr, cc.Value)
 		if len(recv.L) != 2 {
@@ -66,6 +87,7 @@ func (e *Enc) callCommon(fr *Frame, st *State, cc *ssa.CallCommon, fnv *Val, arg
 			}
 		}
 		if c, ok := e.DB.Contracts[key]; ok && c.callable() {
+			c = e.pickAlt(c, append([]*Val{recv}, args...))
 			e.safety(fr, st, "nil", not(eq(recv.L[0].T, "0")), "method call on nil interface "+cc.Method.Name(), pos)
 			return e.applyContract(fr, st, c, append([]*Val{recv}, args...), rt, hint, pos)
 		}
@@ -91,6 +113,15 @@ func (e *Enc) callCommon(fr *Frame, st *State, cc *ssa.CallCommon, fnv *Val, arg
 		return e.applyContract(fr, st, c, append([]*Val{fnv}, args...), rt, hint, pos)
 	}
 	return e.defaultCall(fr, st, dk, args, rt, hint, pos)
+}
+
+// callAssertSeen records that the call site named by key exists (a call-site assertion whose site has disappeared is an
+// undischarged obligation, reported by verifyFunction).
+func (c *Contract) callAssertSeen(key string) {
+	if c.callSeen == nil {
+		c.callSeen = map[string]bool{}
+	}
+	c.callSeen[key] = true
 }
 
 func (c *Contract) callable() bool {
@@ -626,21 +657,27 @@ func (e *Enc) encAppend(fr *Frame, st *State, cc *ssa.CallCommon, args []*Val, r
 		if h == "" {
 			h = e.heapGet(st, k, sorts[i])
 		}
-		// new contents of backing nb: for j in [0,ln): old s[j]; for j in [ln, nlen): t[j-ln]; elsewhere: previous contents of nb (if in place) / arbitrary
+		// new contents of backing nb, by ABSOLUTE index q (single trigger (select na q), so that every read of the new
+		// backing instantiates it): q in [no, no+ln): old s[q-no]; q in [no+ln, no+nlen): t[q-no-ln]; in place: every
+		// other cell keeps its value; fresh backing: other cells arbitrary
 		na := e.fresh(k+"!app", "(Array Int "+esorts[i]+")")
+		rel := "(- q " + no + ")"
 		var src string
 		if isStr {
 			f := e.declFun("strat", []string{"Str", "Int"}, "Int")
-			src = "(" + f + " " + t.L[0].T + " (- j " + ln + "))"
+			src = "(" + f + " " + t.L[0].T + " (- " + rel + " " + ln + "))"
 		} else {
-			src = "(select (select " + h + " " + tbase + ") (+ " + toff + " (- j " + ln + ")))"
+			src = "(select (select " + h + " " + tbase + ") (+ " + toff + " (- " + rel + " " + ln + ")))"
 		}
-		oldAt := "(select (select " + h + " " + base + ") (+ " + off + " j))"
-		e.assert("(forall ((j Int)) (! (and (=> (and (<= 0 j) (< j " + ln + ")) (= (select " + na + " (+ " + no + " j)) " + oldAt + ")) (=> (and (<= " + ln + " j) (< j " + nlen + ")) (= (select " + na + " (+ " + no + " j)) " + src + "))) :pattern ((select " + na + " (+ " + no + " j)))))")
-		// in place: cells outside the appended window keep their value
-		e.assert(implies(fits, "(forall ((j Int)) (! (=> (or (< j (+ "+off+" "+ln+")) (>= j (+ "+off+" "+nlen+"))) (= (select "+na+" j) (select (select "+h+" "+base+") j))) :pattern ((select "+na+" j))))"))
-		// common special case: appending exactly one element gives a direct equation (helps the solvers)
-		e.heapSet(st, k, sorts[i], "(store "+h+" "+nb+" "+na+")")
+		oldAt := "(select (select " + h + " " + base + ") (+ " + off + " " + rel + "))"
+		inOld := "(and (<= " + no + " q) (< q (+ " + no + " " + ln + ")))"
+		inNew := "(and (<= (+ " + no + " " + ln + ") q) (< q (+ " + no + " " + nlen + ")))"
+		outside := "(or (< q " + no + ") (>= q (+ " + no + " " + nlen + ")))"
+		e.assert("(forall ((q Int)) (! (and (=> " + inOld + " (= (select " + na + " q) " + oldAt + ")) (=> " + inNew + " (= (select " + na + " q) " + src + ")) (=> (and " + fits + " " + outside + ") (= (select " + na + " q) (select (select " + h + " " + base + ") q)))) :pattern ((select " + na + " q))))")
+		e.withRef(base, func() { e.heapSet(st, k, sorts[i], "(store "+h+" "+nb+" "+na+")") }) // base itself, or a new backing
+		if b, ok := sl.Elem().Underlying().(*types.Basic); ok && b.Kind() == types.Uint8 && !isStr && len(keys) == 1 {
+			e.bcatFact(e.bseqTerm(na, no, nlen), e.bseqTerm("(select "+h+" "+base+")", off, ln), e.bseqTerm("(select "+h+" "+tbase+")", toff, tlen))
+		}
 	}
 	return &Val{T: rt, L: []Sc{{nb, "Int"}, {no, "Int"}, {nlen, "Int"}, {ncap, "Int"}}}
 }
@@ -677,4 +714,34 @@ func (e *Enc) encCopy(fr *Frame, st *State, cc *ssa.CallCommon, args []*Val, rt 
 		e.heapSet(st, k, sorts[i], "(store "+h+" "+d.L[0].T+" "+na+")")
 	}
 	return &Val{T: rt, L: []Sc{{n, "Int"}}}
+}
+
+// pickAlt: among the alternative assumed contracts of one method (Contract.Alts) choose the one that accepts the
+// statically known dynamic type of an interface-typed argument (`requires typeof(p) == type(T)`); without such
+// knowledge, or when no alternative accepts it, the first contract is used (its requires then fail at the call site).
+func (e *Enc) pickAlt(c *Contract, args []*Val) *Contract {
+	if len(c.Alts) == 0 {
+		return c
+	}
+	for _, cand := range append([]*Contract{c}, c.Alts...) {
+		vars := e.bindParams(cand, args, cand.Sig)
+		for _, g := range typeGuards(cand) {
+			v, ok := vars[g[0].(string)]
+			if !ok || len(v.L) != 2 {
+				continue
+			}
+			n, isConst := isConstTerm(v.L[0].T)
+			if !isConst {
+				continue
+			}
+			gt, err := e.resolveGoType(g[1].(*TypeExpr), cand.PkgPath, cand.Imports)
+			if err != nil {
+				continue // a type of a package that is not part of this load
+			}
+			if int64(e.TI.tagOf(gt)) == n.Int64() {
+				return cand
+			}
+		}
+	}
+	return c
 }
